@@ -1,20 +1,437 @@
-//! C18 — not implemented yet (stub).
+//! C18 — JSON.parse / JSON.stringify implement exactly the JSON grammar and value mapping.
+//!
+//! Oracles: an independent ECMA-404 recogniser and the ECMAScript value mapping (both in
+//! /verif/oracle/py_c18.py), V8 for the text of `JSON.stringify` and for the call order of
+//! toJSON / replacer / reviver / accessors / proxy traps, and the round trip parse(stringify(v)).
 
 use crate::driver::{CaseOut, Env, Prop, Stream, Tier};
+use crate::genp::json::{G, with_helpers, has_escaped_lone_surrogate, has_overflowing_number, has_raw_lone_surrogate, TextOut, js_lit, parse_js_lit, parse_script, stringify_script, u16s, unesc_print};
+use crate::oracle::node_script;
+use crate::run::{RunCfg, Trace, run};
+use serde_json::{Value, json};
 
 pub struct C18;
+
+const PY: &str = "py_c18.py";
+
+/// Deepest nesting boa accepts on the unchanged tree (measured: serde_json's recursion limit of
+/// 128 rejects a text whose nesting exceeds 127). Valid texts nested at most this deep must be
+/// accepted; deeper ones must be accepted with the right value or rejected cleanly.
+pub const PINNED_ACCEPT_DEPTH: u64 = 127;
+
+type Fail = (String, String);
+
+fn texts_of(src: &str, prefix: &str) -> Vec<Vec<u16>> {
+    src.lines().filter(|l| l.starts_with(prefix)).filter_map(|l| parse_js_lit(l, prefix.len() - 1).map(|x| x.0)).collect()
+}
+
+fn lone_surrogate(u: &[u16]) -> bool {
+    let mut i = 0;
+    while i < u.len() {
+        if (0xd800..0xdc00).contains(&u[i]) {
+            if u.get(i + 1).is_some_and(|n| (0xdc00..0xe000).contains(n)) {
+                i += 2;
+                continue;
+            }
+            return true;
+        }
+        if (0xdc00..0xe000).contains(&u[i]) {
+            return true;
+        }
+        i += 1;
+    }
+    false
+}
+
+/// Coarse class of a text, used to make failure signatures specific.
+fn text_class(u: &[u16]) -> &'static str {
+    let s = String::from_utf16_lossy(u);
+    if has_raw_lone_surrogate(u) {
+        "raw-lone-surrogate"
+    } else if has_escaped_lone_surrogate(u) {
+        "escaped-lone-surrogate"
+    } else if has_overflowing_number(u) {
+        "number-overflow"
+    } else if u.iter().any(|x| (0xd800..0xe000).contains(x)) {
+        "raw-surrogate-pair"
+    } else if s.to_ascii_lowercase().contains("\\ud") {
+        "escaped-surrogate-pair"
+    } else if s.contains("__proto__") {
+        "__proto__"
+    } else if u.iter().any(|&x| x == 0x2028 || x == 0x2029) {
+        "u2028"
+    } else if u.iter().any(|&x| x > 0x7e) {
+        "non-ascii"
+    } else if u.iter().any(|&x| x < 0x20 && ![9, 10, 13].contains(&x)) {
+        "control"
+    } else if s.contains('\\') {
+        "escape"
+    } else if s.contains(['e', 'E']) && s.chars().any(|c| c.is_ascii_digit()) {
+        "exponent"
+    } else if s.chars().filter(char::is_ascii_digit).count() >= 17 {
+        "long-digits"
+    } else {
+        "plain"
+    }
+}
+
+fn py_call(env: &mut Env, req: Value) -> Result<Value, String> {
+    env.py(PY)?.call(req)
+}
+
+fn v8_line(env: &mut Env, src: &str, k: usize) -> String {
+    match env.node().and_then(|n| node_script(n, src)) {
+        Ok((p, c)) => format!("{} (completion {c})", p.get(k).cloned().unwrap_or_else(|| "<no line>".into())),
+        Err(e) => format!("<v8 unavailable: {e}>"),
+    }
+}
+
+fn boa(src: &str) -> Trace {
+    run(src, &RunCfg::default())
+}
+
+// ------------------------------------------------------------------------------------------
+// parse streams
+
+fn check_parse(env: &mut Env, src: &str) -> Result<(), Fail> {
+    let texts = texts_of(src, "P('");
+    let t = boa(src);
+    let resp = py_call(env, json!({"kind": "parse", "texts": texts})).map_err(|e| ("oracle-error".to_string(), e))?;
+    let results = resp["results"].as_array().cloned().unwrap_or_default();
+    if results.len() != texts.len() {
+        return Err(("oracle-error".into(), "python answered with a different number of results".into()));
+    }
+    for (k, (text, r)) in texts.iter().zip(results.iter()).enumerate() {
+        if let Some(d) = r["self"].as_str() {
+            return Err(("oracle-self-disagreement".into(), format!("text {}: {d}", js_lit(text))));
+        }
+        let ok = r["ok"].as_bool().unwrap_or(false);
+        let want = if ok { format!("ok {}", r["dump"].as_str().unwrap_or("?")) } else { "err SyntaxError".to_string() };
+        let got = t.prints.get(k).cloned().unwrap_or_else(|| format!("<no line; completion {}>", t.completion.render()));
+        if got != want {
+            let kind = if got.starts_with("<no line") {
+                format!("parse: script abnormal {}", t.completion.render().split(':').take(2).collect::<Vec<_>>().join(":"))
+            } else if ok && got.starts_with("err SyntaxError") {
+                "parse: rejects valid".to_string()
+            } else if !ok && got.starts_with("ok ") {
+                "parse: accepts invalid".to_string()
+            } else if ok && got.starts_with("ok ") {
+                "parse: value mismatch".to_string()
+            } else {
+                format!("parse: wrong error class {}", got.trim_start_matches("err "))
+            };
+            let v8 = v8_line(env, src, k);
+            return Err((
+                format!("{kind} [{}]", text_class(text)),
+                format!("text #{k} = {}\nmodel (recogniser + value mapping): {want}\nboa: {got}\nv8 : {v8}", js_lit(text)),
+            ));
+        }
+    }
+    if t.prints.len() != texts.len() || t.completion.render() != "value:undefined" {
+        return Err(("parse: script abnormal".into(), format!("prints={} texts={} completion={}", t.prints.len(), texts.len(), t.completion.render())));
+    }
+    Ok(())
+}
+
+// ------------------------------------------------------------------------------------------
+// deep nesting
+
+struct DeepLine {
+    open: Vec<u16>,
+    n: u64,
+    leaf: Vec<u16>,
+    close: Vec<u16>,
+    m: u64,
+}
+
+fn parse_deep_line(l: &str) -> Option<DeepLine> {
+    let rest = l.strip_prefix("D(")?;
+    let (open, i) = parse_js_lit(rest, 0)?;
+    let rest = rest[i..].strip_prefix(", ")?;
+    let (ns, rest) = rest.split_once(", ")?;
+    let (leaf, i) = parse_js_lit(rest, 0)?;
+    let rest = rest[i..].strip_prefix(", ")?;
+    let (close, i) = parse_js_lit(rest, 0)?;
+    let rest = rest[i..].strip_prefix(", ")?;
+    let ms = rest.strip_suffix(");")?;
+    Some(DeepLine { open, n: ns.parse().ok()?, leaf, close, m: ms.parse().ok()? })
+}
+
+fn check_deep(env: &mut Env, src: &str) -> Result<(), Fail> {
+    let lines: Vec<DeepLine> = src.lines().filter_map(parse_deep_line).collect();
+    let t = boa(src);
+    for (k, d) in lines.iter().enumerate() {
+        let v = py_call(env, json!({"kind": "verdict", "open": d.open, "n": d.n, "leaf": d.leaf, "close": d.close, "m": d.m}))
+            .map_err(|e| ("oracle-error".to_string(), e))?;
+        let valid = v["ok"].as_bool().unwrap_or(false);
+        let per = d.open.iter().filter(|&&u| u == 0x5b || u == 0x7b).count() as u64;
+        let leaf_nest = u64::from(d.leaf.iter().any(|&u| u == 0x5b || u == 0x7b));
+        let depth = per * d.n + leaf_nest;
+        let got = t.prints.get(k).cloned().unwrap_or_else(|| format!("<no line; completion {}>", t.completion.render()));
+        let what = format!("line #{k}: open={} n={} leaf={} close={} m={} (nesting depth {depth}, model says {})", js_lit(&d.open), d.n, js_lit(&d.leaf), js_lit(&d.close), d.m, if valid { "valid" } else { "invalid" });
+        let clean_reject = got == "err SyntaxError" || got == "err RangeError";
+        if !valid {
+            if !clean_reject {
+                return Err((format!("deep: invalid text not rejected cleanly ({})", got.split(' ').take(2).collect::<Vec<_>>().join(" ")), format!("{what}\nboa: {got}")));
+            }
+            continue;
+        }
+        // valid text: the expected line when accepted (an empty leaf is only valid inside pure
+        // array nesting, where the innermost pair of brackets is the leaf `[]`)
+        let (leaf_text, walk) = if d.leaf.is_empty() { (u16s("[]"), (per * d.n).saturating_sub(1)) } else { (d.leaf.clone(), per * d.n) };
+        let depth = if d.leaf.is_empty() { per * d.n } else { depth };
+        let leaf = py_call(env, json!({"kind": "parse", "texts": [leaf_text]})).map_err(|e| ("oracle-error".to_string(), e))?;
+        let want = format!("ok {walk} {}", leaf["results"][0]["dump"].as_str().unwrap_or("?"));
+        if got == want {
+            continue;
+        }
+        if got.starts_with("ok ") {
+            return Err(("deep: accepted with a wrong value".into(), format!("{what}\nwant: {want}\nboa: {got}")));
+        }
+        if depth <= 12 {
+            return Err(("deep: rejects valid JSON nested <= 12".into(), format!("{what}\nwant: {want}\nboa: {got}")));
+        }
+        if depth <= PINNED_ACCEPT_DEPTH {
+            return Err((format!("deep: rejects valid JSON nested <= pinned {PINNED_ACCEPT_DEPTH}"), format!("{what}\nwant: {want}\nboa: {got}")));
+        }
+        if !clean_reject {
+            return Err((format!("deep: not rejected cleanly ({})", got.chars().take(40).collect::<String>()), format!("{what}\nwant: {want} or a clean SyntaxError/RangeError\nboa: {got}")));
+        }
+    }
+    if t.prints.len() != lines.len() || t.completion.render() != "value:undefined" {
+        return Err(("deep: script abnormal".into(), format!("prints={} lines={} completion={}", t.prints.len(), lines.len(), t.completion.render())));
+    }
+    Ok(())
+}
+
+// ------------------------------------------------------------------------------------------
+// stringify / reviver
+
+fn check_stringify(env: &mut Env, src: &str) -> Result<(), Fail> {
+    let t = boa(src);
+    let (np, nc) = node_script(env.node().map_err(|e| ("skip:oracle-unavailable".to_string(), e))?, src).map_err(|e| ("skip:oracle-error".to_string(), e))?;
+    if nc == "limit:timeout" {
+        return Err(("skip:v8-timeout".into(), String::new()));
+    }
+    // 1. byte-for-byte against V8: results, and the order of every observable call
+    if t.prints != np {
+        let k = t.prints.iter().zip(np.iter()).position(|(a, b)| a != b).unwrap_or(t.prints.len().min(np.len()));
+        let b = t.prints.get(k).cloned().unwrap_or_else(|| "<none>".into());
+        let n = np.get(k).cloned().unwrap_or_else(|| "<none>".into());
+        let class = |s: &str| s.split(' ').take(2).collect::<Vec<_>>().join(" ");
+        let mut sig = if class(&b) == class(&n) { format!("stringify: differs from V8 at a `{}` line", class(&b)) } else { format!("stringify: differs from V8: boa `{}` v8 `{}`", class(&b), class(&n)) };
+        if src.lines().any(|l| l.starts_with("RV(") && l.ends_with(", rv6);")) && (b.starts_with("rv ") || b.starts_with("V ")) {
+            sig.push_str(" [reviver assigns this.length]");
+        }
+        return Err((sig, format!("first difference at print #{k}\nboa: {b}\nv8 : {n}\n--- boa\n{}\n--- v8\n{}\n=> {nc}", t.render(), np.join("\n"))));
+    }
+    if t.completion.render() != nc {
+        return Err((format!("stringify: completion boa={} v8={}", t.completion.render(), nc), t.render()));
+    }
+    // 2. every produced text (with a white-space gap) is valid JSON for the recogniser and free of lone surrogates
+    let mut outs: Vec<(usize, Vec<u16>)> = vec![];
+    for (k, p) in t.prints.iter().enumerate() {
+        if let Some(text) = p.strip_prefix("J string ws ") {
+            outs.push((k, unesc_print(text)));
+        }
+    }
+    let resp = py_call(env, json!({"kind": "parse", "texts": outs.iter().map(|o| o.1.clone()).collect::<Vec<_>>()})).map_err(|e| ("oracle-error".to_string(), e))?;
+    let results = resp["results"].as_array().cloned().unwrap_or_default();
+    for ((k, text), r) in outs.iter().zip(results.iter()) {
+        if r["ok"].as_bool() != Some(true) {
+            return Err(("stringify: output is not valid JSON".into(), format!("print #{k}: {} rejected by the recogniser at {}", js_lit(text), r["pos"])));
+        }
+        if lone_surrogate(text) {
+            return Err(("stringify: output contains a lone surrogate".into(), format!("print #{k}: {}", js_lit(text))));
+        }
+    }
+    // 3. round-trip blocks: the text parses (in Python) to the model structure, and so does boa's parse of it
+    let srcs = texts_of(src, "RT('");
+    let marks: Vec<usize> = t.prints.iter().enumerate().filter(|(_, p)| *p == "RT").map(|(k, _)| k).collect();
+    for (s, &k) in srcs.iter().zip(marks.iter()) {
+        let r = py_call(env, json!({"kind": "roundtrip", "src": s, "out": Value::Null})).map_err(|e| ("oracle-error".to_string(), e))?;
+        let want = r["want"].as_str().unwrap_or("?").to_string();
+        // the J line follows the mark (an indent object may print from its valueOf in between)
+        let Some(jk) = (k + 1..t.prints.len()).find(|&i| t.prints[i].starts_with("J ")) else {
+            return Err(("roundtrip: no result line".into(), format!("value {}\n{}", js_lit(s), t.render())));
+        };
+        let j = t.prints[jk].clone();
+        let Some(text) = j.strip_prefix("J string ") else {
+            return Err(("roundtrip: stringify of a JSON value did not produce a string".into(), format!("value {}\nboa: {j}", js_lit(s))));
+        };
+        if let Some(text) = text.strip_prefix("ws ") {
+            let idx = outs.iter().position(|o| o.0 == jk);
+            let got = idx.and_then(|i| results[i]["dump"].as_str()).unwrap_or("?");
+            if got != want {
+                return Err(("roundtrip: stringify text does not denote the value".into(), format!("value {}\ntext {}\nmodel of value: {want}\nmodel of text : {got}", js_lit(s), text)));
+            }
+            let rline = t.prints.get(jk + 1).cloned().unwrap_or_default();
+            if rline != format!("R ok {want}") {
+                return Err(("roundtrip: parse(stringify(v)) is not v".into(), format!("value {}\nwant: R ok {want}\nboa : {rline}", js_lit(s))));
+            }
+        }
+    }
+    Ok(())
+}
+
+// ------------------------------------------------------------------------------------------
+
+fn to_case(src: String, r: Result<(), Fail>, nontrivial: bool, labels: Vec<&'static str>) -> CaseOut {
+    // development aid: C18_DUMP_DIR=<dir> keeps every generated script with its boa trace
+    if let Ok(dir) = std::env::var("C18_DUMP_DIR") {
+        let h = crate::rng::hash_bytes(src.as_bytes());
+        let _ = std::fs::write(format!("{dir}/{h:016x}.js"), format!("{src}\n/* boa:\n{}\n*/\n", boa(&src).render()));
+    }
+    match r {
+        Ok(()) => CaseOut::pass(src, nontrivial).with_labels(labels),
+        Err((sig, detail)) if sig.starts_with("skip:") => CaseOut::skip(src, format!("{}: {detail}", &sig[5..])).with_labels(labels),
+        Err((sig, detail)) if sig == "oracle-error" => CaseOut::skip(src, format!("oracle-error: {detail}")).with_labels(labels),
+        Err((sig, detail)) => CaseOut::fail(src, sig, detail).with_labels(labels),
+    }
+}
+
+fn deep_script(g: &mut G<'_>, labels: &mut Vec<&'static str>) -> String {
+    let mut s = String::new();
+    let lines = 1 + g.t.below(3);
+    for _ in 0..lines {
+        let (open, close) = *g.t.pick(&[("[", "]"), ("{\"a\":", "}"), ("[{\"a\":", "}]"), ("[ ", " ]"), ("{ \"a\" : ", "\n}"), ("{\"a\":[", "]}")]);
+        let n = match g.t.weighted(&[2, 2, 4, 3, 3, 2]) {
+            0 => 1 + g.t.below(12),
+            1 => 13 + g.t.below(100),
+            2 => 50 + g.t.below(30),
+            3 => 100 + g.t.below(900),
+            4 => 1000 + g.t.below(9000),
+            _ => 10000 + g.t.below(90001),
+        } as u64;
+        let mut leaf = *g.t.pick(&["1", "\"x\"", "[]", "{}", "null", "-0", "[1,2]"]);
+        let mut m = n;
+        let mut close = close.to_string();
+        match g.t.weighted(&[10, 2, 2, 2, 1]) {
+            0 => labels.push("deep-balanced"),
+            1 => {
+                labels.push("deep-unclosed");
+                m = n - 1;
+            }
+            2 => {
+                labels.push("deep-extra-close");
+                m = n + 1;
+            }
+            3 => {
+                labels.push("deep-mismatched-close");
+                close = close.replace(']', ")").replace('}', "]").replace(')', "}");
+            }
+            _ => {
+                labels.push("deep-empty-leaf");
+                leaf = "";
+            }
+        }
+        let per = open.chars().filter(|c| *c == '[' || *c == '{').count() as u64;
+        labels.push(match per * n {
+            0..=12 => "deep-depth-1-12",
+            13..=127 => "deep-depth-13-127",
+            128..=999 => "deep-depth-128-999",
+            1000..=9999 => "deep-depth-1000-9999",
+            _ => "deep-depth-10000+",
+        });
+        s.push_str(&format!("D({}, {n}, {}, {}, {m});\n", js_lit(&u16s(open)), js_lit(&u16s(leaf)), js_lit(&u16s(&close))));
+    }
+    with_helpers(&s, "deep")
+}
+
+fn interesting_text(u: &[u16]) -> bool {
+    text_class(u) != "plain"
+}
 
 impl Prop for C18 {
     fn id(&self) -> &'static str {
         "C18"
     }
-    fn streams(&self, _tier: Tier) -> Vec<Stream> {
-        vec![]
+    fn streams(&self, tier: Tier) -> Vec<Stream> {
+        let m = if tier == Tier::Quick { 1 } else { 60 };
+        vec![
+            Stream::new("parse-valid", 500 * m, 1200).batch(25),
+            Stream::new("parse-nearmiss", 500 * m, 900).batch(25),
+            Stream::new("deep", 96 * m, 64).batch(6),
+            Stream::new("stringify", 1000 * m, 700).batch(25),
+        ]
     }
     fn rule(&self) -> String {
-        "stub".into()
+        "parse-valid: 8 texts per script, each the serialisation (random legal white space, escape choices, hex case) of a generated JSON value nested up to 12 (adversarial strings, numbers, keys); parse-nearmiss: 8 texts per script from bad tokens planted at value positions, structural edits at token boundaries, 1-2 unit mutations, bad prefixes/suffixes; every text is passed to JSON.parse as an exact code-unit string; accept/SyntaxError must equal the independent recogniser, the dumped value (types, number bits, string units, own key order, attributes, prototype) must equal the Python value mapping. deep: nesting 1..100000, must be accepted with the right value up to the pinned depth 127, else rejected cleanly. stringify: 3-6 blocks per script (round trip of JSON values with an indent; arbitrary values incl. undefined/functions/symbols/BigInt/boxed/Date/toJSON/getters/proxies/cycles/holes with replacer function or array and indent; JSON.parse with 10 printing revivers that delete, replace and mutate the holder; JSON.parse of non-string arguments), whole trace byte-for-byte equal to V8, every text output valid for the recogniser and free of lone surrogates, round trips equal the model. non-trivial = (parse streams) at least one text of the script contains an escape, a surrogate, a non-ASCII unit or an edge number, or is a near miss within 2 unit edits of a valid text; (deep) a depth > 12; (stringify) at least one of replacer / indent / toJSON / non-JSON value / reviver present; distinct = distinct script".into()
     }
-    fn run_case(&self, _env: &mut Env, _stream: &str, _index: u64, _tape: &[u8]) -> CaseOut {
-        CaseOut::skip(String::new(), "stub")
+    fn assumptions(&self) -> Vec<String> {
+        vec![
+            "V8 (node 20) implements SerializeJSONProperty / InternalizeJSONProperty call order and text exactly (the algorithm is fully specified)".into(),
+            "Python's float() is correctly rounded; Python's json (strict, constants rejected) agrees with the recogniser on every text (checked on every case)".into(),
+            "V8 deviates from the specification for a numeric indent strictly between 0 and 1 (it emits line feeds with an empty gap); such indents are not generated. Own-key order of built-in namespace objects and the own `arguments`/`caller` of sloppy functions are engine specific and are not put behind printing proxies".into(),
+            "open known findings exclude from generation: lone surrogates (raw or escaped) in parsed texts, numbers at or beyond +-1.79769313486231e308, `this.length = n` inside a reviver (see /verif/known.d/C18.json); JSON.rawJSON / isRawJSON and the reviver's third `context` argument are not covered (absent from the V8 oracle)".into(),
+        ]
+    }
+    fn run_case(&self, env: &mut Env, stream: &str, _index: u64, tape: &[u8]) -> CaseOut {
+        let mut g = G::new(tape);
+        match stream {
+            "parse-valid" => {
+                let mut texts = vec![];
+                let mut nt = 0;
+                for _ in 0..8 {
+                    g.interesting = false;
+                    let t: TextOut = g.valid_text(false);
+                    if g.interesting || interesting_text(&t.units) {
+                        nt += 1;
+                        g.labels.push("nt-text");
+                    }
+                    g.labels.push("text");
+                    texts.push(t.units);
+                }
+                let src = parse_script(&texts);
+                let r = check_parse(env, &src);
+                to_case(src, r, nt > 0, g.labels)
+            }
+            "parse-nearmiss" => {
+                let mut texts = vec![];
+                let mut nt = 0;
+                for _ in 0..8 {
+                    g.interesting = false;
+                    let (t, edits, class) = g.near_miss();
+                    g.labels.push(class);
+                    if edits <= 2 || interesting_text(&t) {
+                        nt += 1;
+                        g.labels.push("nt-text");
+                    }
+                    g.labels.push("text");
+                    texts.push(t);
+                }
+                let src = parse_script(&texts);
+                let r = check_parse(env, &src);
+                to_case(src, r, nt > 0, g.labels)
+            }
+            "deep" => {
+                let mut labels = vec![];
+                let src = deep_script(&mut g, &mut labels);
+                let r = check_deep(env, &src);
+                let nt = labels.iter().any(|l| l.starts_with("deep-depth-") && *l != "deep-depth-1-12");
+                to_case(src, r, nt, labels)
+            }
+            _ => {
+                let (src, nt) = stringify_script(&mut g);
+                let r = check_stringify(env, &src);
+                to_case(src, r, nt, g.labels)
+            }
+        }
+    }
+    fn run_rendered(&self, env: &mut Env, stream: &str, rendered: &str) -> Option<CaseOut> {
+        if rendered.is_empty() {
+            return Some(CaseOut::skip(String::new(), "empty"));
+        }
+        let src = rendered.to_string();
+        let (r, nt) = match stream {
+            "parse-valid" | "parse-nearmiss" => (check_parse(env, &src), true),
+            "deep" => (check_deep(env, &src), true),
+            _ => (check_stringify(env, &src), true),
+        };
+        Some(to_case(src, r, nt, vec![]))
+    }
+    fn rendered_prefix_lines(&self, _rendered: &str) -> usize {
+        // the case comes first, the helpers after it
+        0
     }
 }
